@@ -85,8 +85,11 @@ impl Diagnostics {
                     }
                 }
                 let severity = match diag.severity {
+                    Severity::Bug => "bug",
                     Severity::Error => "error",
-                    _ => unimplemented!(),
+                    Severity::Warning => "warning",
+                    Severity::Note => "note",
+                    Severity::Help => "help",
                 };
                 msg += format!("{}: ", severity).as_str();
                 msg += diag.message.as_str();
